@@ -486,6 +486,15 @@ func genReq(t *rapid.T, label string, intact *bool) Req {
 				{"query vector of the wrong length inside _and", func(b map[string]any) {
 					b["query"] = map[string]any{"property": "_and", "_and": []any{map[string]any{"property": "flat", "vectorFlat": map[string]any{"vector": []any{1.0, 2.0, 3.0, 4.0}, "operator": "near", "limit": 10.0}}, map[string]any{"property": "size", "integer": map[string]any{"value": 1.0, "operator": "equals"}}}}
 				}},
+				{"query vector of the wrong length inside the pre-filter of a query that also carries an unused options block", func(b map[string]any) {
+					badFilter := map[string]any{"property": "flat", "vectorFlat": map[string]any{"vector": []any{1.0, 2.0, 3.0, 4.0, 5.0}, "operator": "near", "limit": 10.0}}
+					stray := map[string]any{"vector": []any{0.0, 1.0}, "operator": "near", "limit": 10.0}
+					if rapid.Bool().Draw(t, label+"-straytext") {
+						b["query"] = map[string]any{"property": "description", "text": map[string]any{"value": "ring", "operator": "containsAny", "limit": 5.0, "filter": badFilter}, "vectorFlat": stray}
+					} else {
+						b["query"] = map[string]any{"property": "vector", "vectorVamana": map[string]any{"vector": []any{1.0, 2.0}, "operator": "near", "searchSize": 75.0, "limit": 10.0, "filter": badFilter}, "vectorFlat": stray}
+					}
+				}},
 				{"query vector of the wrong length inside a pre-filter", func(b map[string]any) {
 					b["query"] = map[string]any{"property": "description", "text": map[string]any{"value": "ring", "operator": "containsAny", "limit": 5.0, "filter": map[string]any{"property": "flat", "vectorFlat": map[string]any{"vector": []any{1.0, 2.0, 3.0}, "operator": "near", "limit": 10.0}}}}
 				}},
@@ -800,6 +809,16 @@ func genCase(t *rapid.T) Case {
 			c.Reqs = append(c.Reqs, Req{Method: "POST", Path: "/v2/collections/" + col + "/points/search", Headers: hd, Body: `{"query":{"property":"size","integer":{"value":0,"operator":"greaterThan"}},"limit":5}`})
 		}
 		c.Reqs = append(c.Reqs, Req{Method: "DELETE", Path: "/v2/collections/" + col, Headers: hd})
+		intact = false
+	}
+	if rapid.IntRange(0, 9).Draw(t, "list-path") == 0 {
+		// an index on a path with a numeric element ("emb.0"): where the document holds a list at that place the
+		// point does not fit the index, whatever the list holds
+		hd := map[string]string{"Content-Type": "application/json", "X-User-Id": "bob", "X-Plan-Id": plan}
+		jb, _ := json.Marshal(map[string]any{"id": "lst1", "indexSchema": map[string]any{"emb.0": map[string]any{"type": "vectorFlat", "vectorFlat": map[string]any{"vectorSize": 2.0, "distanceMetric": "euclidean"}}}})
+		c.Reqs = append(c.Reqs, Req{Method: "POST", Path: "/v2/collections", Headers: hd, Body: string(jb)},
+			Req{Method: "POST", Path: "/v2/collections/lst1/points", Headers: hd, Body: `{"points":[{"emb":[[1,2,3,4,5]]}]}`, Msgpack: rapid.Bool().Draw(t, "lp-msgpack"), MustReject: "a list where an indexed path expects a map"},
+			Req{Method: "POST", Path: "/v2/collections/lst1/points/search", Headers: hd, Body: `{"query":{"property":"emb.0","vectorFlat":{"vector":[1,2],"operator":"near","limit":5}},"limit":5}`})
 		intact = false
 	}
 	if rapid.IntRange(0, 7).Draw(t, "nested-tenant") == 0 {
